@@ -498,6 +498,11 @@ def zsum(terms):
     return z3.Sum(terms)
 
 
+# the runner generates a contract that ended in a tool limit once more with this raised (a path-feasibility query that was cut off by its
+# wall-clock budget - the load average lags behind a burst of processes - must not push a function out of reach)
+LOAD_FLOOR = 1.0
+
+
 def _symbolic_member(x):
     return isinstance(x, VBytes) or (isinstance(x, VInt) and x.conc() is None) or (isinstance(x, VStr) and x.s is None and x.z is not None)
 
@@ -550,7 +555,7 @@ class Exec:
                 lf = max(1.0, min(8.0, os.getloadavg()[0] / float(os.cpu_count() or 1)))
             except (OSError, AttributeError):
                 lf = 1.0
-            self._load = lf
+            self._load = lf = max(lf, LOAD_FLOOR)
         return lf
 
     def solver(self, st):
